@@ -41,7 +41,7 @@ RULE = ('random sequential architectures (depth 1-4 of Conv1d with stride/dilati
         '"Coverage audit"): model structure (nested containers, aliases, training mode, frozen parameters, extra '
         'forward args), numpy / negative / object forms of the scalar parameters, batch_size 0, a reference '
         'function of the caller, user hooks, directed tiny-delta_out units; cases with some '
-        '0 < |delta_in| <= 1e-4 are excluded and counted (hist key "band-excluded")')
+        '1e-7 <= |delta_in| <= 1e-5 (max-pool: 1e-8 .. 1e-6) are excluded and counted (hist key "band-excluded")')
 TRUSTED = ['probing of torch affine modules (Conv1d/Linear/AvgPool1d) into matrices with basis vectors; '
            'cross-checked on every case by comparing the model\'s forward value with torch\'s f(x), f(ref)',
            'co-simulation mode: torch\'s own forward values and ordinary derivatives of the activation '
@@ -50,7 +50,7 @@ TRUSTED = ['probing of torch affine modules (Conv1d/Linear/AvgPool1d) into matri
            'the theorems are about exact fields (instance QcX is used for the exact-mode cases)']
 ASSUMPTIONS = ['floating-point rounding is not modelled: residuals are judged with tolerance 1e-6 relative to '
                '1 + |f(x)| + |f(ref)| + sum |m_i (x_i - ref_i)|; multipliers with 1e-9 relative to the largest entry',
-               'the 1e-6 / 1e-7 switch bands are excluded (0 < |delta_in| <= 1e-4), not verified',
+               'the band one decade either side of the 1e-6 / 1e-7 switches is excluded, not verified',
                'torch autograd dispatches the registered hooks as documented (exercised by every case)']
 ALLOW_MAXPOOL = True
 
@@ -187,6 +187,11 @@ def gen_pre(rng, layers, exact):
     return pre
 
 
+NEAR_KINKS = [('ReLU', 0.0), ('ReLU', 0.0), ('ReLU6', 0.0), ('ReLU6', 6.0), ('LeakyReLU', 0.0), ('PReLU', 0.0),
+              ('RReLU', 0.0), ('Softshrink', 0.5), ('Softshrink', -0.5), ('SELU', 0.0), ('Hardtanh', -0.5),
+              ('Hardtanh', 0.75), ('Hardswish', -3.0), ('Hardswish', 3.0)]
+
+
 def gen_directed(rng, exact):
     """Flatten -> Linear -> activation -> Linear (-> activation -> Linear) with one directed hidden unit."""
     A = rng.choice([4, 4, 3, 2]); L = rng.randint(4, 9)
@@ -195,9 +200,16 @@ def gen_directed(rng, exact):
         kind = rng.choice(['kink', 'kink', 'kink6', 'shrink'])
         name = {'kink': rng.choice(['ReLU', 'ReLU6']), 'kink6': 'ReLU6', 'shrink': 'Softshrink'}[kind]
         dr = {'kind': kind, 'unit': rng.randrange(h)}
-    else:
+    elif rng.random() < 0.5:
         name = rng.choice(['GELU', 'SiLU', 'Mish'])
         dr = {'kind': 'valley', 'unit': rng.randrange(h), 'act': name, 'depth': rng.choice([0.25, 0.5, 1.0, 1.5])}
+    else:
+        # near-coincident, not identical pre-activations on the two sides of a kink: the ordinary
+        # derivative (at the example's side) is demanded, the secant slope is a different number
+        name, kink = rng.choice(NEAR_KINKS)
+        dr = {'kind': 'near', 'unit': rng.randrange(h), 'act': name, 'kink': kink,
+              'delta': rng.choice([1e-8, 1e-9, 1e-10, 1e-12, 1e-12]), 'frac': rng.choice([0.3, 0.5, 0.7]),
+              'flip': rng.random() < 0.5}
     layers = [{'t': 'flatten'}, {'t': 'linear', 'in': A * L, 'out': h, 'bias': True}, {'t': 'act', 'name': name}]
     if rng.random() < 0.4:
         h2 = rng.randint(1, 3)
@@ -206,9 +218,13 @@ def gen_directed(rng, exact):
         h = h2
     layers.append({'t': 'linear', 'in': h, 'out': nout, 'bias': rng.random() < 0.8})
     B, ns = rng.choice([1, 2]), rng.randint(1, 3)
-    return {'mode': 'exact' if exact else 'cosim', 'A': A, 'L': L, 'layers': layers, 'nout': nout,
-            'target': rng.randrange(nout), 'B': B, 'ns': ns, 'batch_size': rng.choice([1, 2, B * ns, 32]),
-            'refs': 'onehot', 'seed': rng.randrange(10 ** 9), 'directed': dr}
+    inp = {'mode': 'exact' if exact else 'cosim', 'A': A, 'L': L, 'layers': layers, 'nout': nout,
+           'target': rng.randrange(nout), 'B': B, 'ns': ns, 'batch_size': rng.choice([1, 2, B * ns, 32]),
+           'refs': 'onehot', 'seed': rng.randrange(10 ** 9), 'directed': dr}
+    used_extra = sorted({ly['name'] for ly in layers if ly['t'] == 'act' and ly['name'] in EXTRA_ACTS})
+    if used_extra:
+        inp['extra_ops'] = used_extra
+    return inp
 
 
 def gen_user_hooks(rng, layers, backward_on_nonlinear):
@@ -516,6 +532,10 @@ def apply_directed(mods, X, refs, dr):
         tx, tr = 6.0 - e, 7.0
     elif dr['kind'] == 'shrink':
         tx, tr = 0.5 + e, -0.25
+    elif dr['kind'] == 'near':
+        tx, tr = dr['kink'] + dr['frac'] * dr['delta'], dr['kink'] - (1.0 - dr['frac']) * dr['delta']
+        if dr['flip']:
+            tx, tr = tr, tx
     else:
         tx, tr = valley_pair(dr['act'], dr['depth'])
     with torch.no_grad():
@@ -816,7 +836,11 @@ def _analyse(inp):
         for idx, v in rec.items():
             i = v[0]
             d = (i[0:1] - i[1:]).abs()
-            if bool(((d > 0) & (d <= 1e-4)).any()):     # also float noise below 1e-9 (see design/C05.md, false alarms)
+            # ambiguous band one decade either side of the switch (1e-6 for _nonlinear, 1e-7 for _maxpool):
+            # below it the ordinary derivative is demanded (this covers float noise of 1e-19 between
+            # identical inputs), above it the secant slope
+            lo, hi = (1e-8, 1e-6) if inp['layers'][idx]['t'] == 'maxpool' else (1e-7, 1e-5)
+            if bool(((d >= lo) & (d <= hi)).any()):
                 band = True
             if bool((d > 0).any()):
                 nontriv = True
